@@ -898,22 +898,20 @@ class VmTarSuite(Suite):
 
     # -- spec side computed in Python for the streams the Coq spec does not cover (long records)
     def py_spec(self, case):
-        """expected listing of a `long` case: what the format says (GNU L/K records rename the next member)"""
+        """expected listing of a `long` case, the harness's own reading: GNU L/K records rename the member that follows.
+        Reader-defined details (what a standard tar reader does, which is what the property asks for): records are applied
+        from the one nearest to the member outwards, so the outermost record of a kind wins, and each record removes one
+        trailing slash from a directory's name."""
         out = []
         pos = 0
-        pend_name = pend_link = None
+        group = []
         first = None
         for m in case["items"]:
             d = member_data(m)
             if m.get("payload") is not None:
                 if first is None:
                     first = pos
-                p = unhx(m["payload"])
-                # a repeated record of the same kind: the standard reader keeps the first one
-                if m["type"] == 76:
-                    pend_name = p if pend_name is None else pend_name
-                else:
-                    pend_link = p if pend_link is None else pend_link
+                group.append(m)
                 pos += 512 + len(d)
                 continue
             st = spec_type(m)
@@ -923,18 +921,20 @@ class VmTarSuite(Suite):
             if m["prefix"]:
                 name = unhx(m["prefix"]) + b"/" + name
             link = unhx(m["link"])
-            if pend_name is not None:
-                name = pend_name
+            for r in reversed(group):
+                if r["type"] == 76:
+                    name = unhx(r["payload"])
+                else:
+                    link = unhx(r["payload"])
                 if st == 53 and name.endswith(b"/"):
                     name = name[:-1]
-            if pend_link is not None:
-                link = pend_link
             e = {"name": name, "link": link, "type": st, "size": m["size"], "off": pos if first is None else first,
                  "data": m["voff"] if stored_away(m) else pos + 512, "visor": m["visor"],
                  "text": m["text"] if m["visor"] else 0, "fix": m["fix"] if m["visor"] else 0}
             e["x"] = ("plan", e["data"], e["size"]) if has_data_type(st) else ("none",)
             out.append(e)
-            pend_name = pend_link = first = None
+            group = []
+            first = None
             pos += 512 + len(d)
         return out
 
